@@ -649,6 +649,24 @@ def gen_assertions(rnd, L, sig, tg, depth, n_assert, planted_p=0.55):
         out += planted(rnd, L, sig, tg)
         while rnd.random() < planted_p * 0.6 and len(out) < 14:
             out += planted(rnd, L, sig, tg)
+    nums = [x for x in ("Int", "Real") if len(sig.vars.get(x, [])) >= 3]
+    if nums and rnd.random() < (0.5 if L["dl"] else 0.1):
+        # dense system of small difference constraints in clauses: many alternative negative-cycle explanations,
+        # propagation chains and shortest-path updates in the difference-logic (and simplex) solvers
+        srt = rnd.choice(nums)
+        vs = sig.vars[srt]
+        lit = (lambda v: int_lit(v)) if srt == "Int" else (lambda v: real_lit(rnd, v))
+        dense = []
+        for _ in range(rnd.randint(8, 40)):
+            lits = []
+            for _ in range(1 if rnd.random() < 0.35 else 2):
+                x, y = rnd.sample(vs, 2)
+                a = "(%s (- %s %s) %s)" % (rnd.choice(["<=", "<", ">=", ">"]), x, y, lit(rnd.randint(-4, 4)))
+                lits.append(a if rnd.random() < 0.7 else "(not %s)" % a)
+            dense.append(lits[0] if len(lits) == 1 else "(or %s)" % " ".join(lits))
+        out = dense + out[:rnd.randint(0, 2)]
+        rnd.shuffle(out)
+        return out, pool
     if out and rnd.random() < 0.18:
         # planted-only script: the shape is not drowned in unrelated constraints
         rnd.shuffle(out)
